@@ -2,7 +2,7 @@
 From V Require Import Model.PtpWire Proofs.WireBytes Proofs.PtpWireHeader Proofs.PtpWireDeSer1.
 From Coq Require Import ZifyBool.
 
-Ltac bytes_solve := repeat constructor; unfold is_byte; assumption.
+Ltac bytes_solve := repeat (apply Forall_cons; [unfold is_byte in *; lia|]); apply Forall_nil.
 
 Lemma header_back :
   forall b0 b1 b2 b3 b4 b5 b6 b7 b8 b9 b10 b11 b12 b13 b14 b15 b16 b17 b18 b19 b20 b21 b22 b23 b24 b25 b26 b27 b28 b29
@@ -21,7 +21,7 @@ Proof.
   unfold bytes_ok in Hb.
   repeat match goal with H : Forall _ (_ :: _) |- _ => let A := fresh "Y" in let B := fresh "F" in inversion H as [|? ? A B]; clear H; subst end.
   unfold is_byte in *.
-  unfold de_header, slice, byte, pid_de in H.
+  unfold de_header, pid_de in H. unfold slice, byte in H.
   cbn [app nth firstn skipn Nat.sub] in H.
   injection H as <- <- <-.
   destruct (byte0_back b0 b5 ltac:(assumption) ltac:(assumption)) as (Z0 & Z5 & Zs). cbv zeta in Z0, Z5, Zs.
